@@ -126,6 +126,47 @@ def dispatch(t1: int, t2: int, nd: int, np: int, meta: int, hits: int) -> str:
     return ""
 
 
+
+def once(np: int, nd: int, hits: int, lab: int) -> str:
+    """
+    The expressions of a metric (value, label) are evaluated ONCE per definition and hit, however many processors are
+    active: with expressions that consume application state (`seq.pop(0)`, `tags.pop(0)`) every processor is told the
+    same value and label, and the state is consumed once per definition per hit.
+    PRE: 1 <= np <= 3 and 1 <= nd <= 2 and 1 <= hits <= 2 and 0 <= lab <= 1
+    POST: _ == ""
+    """
+    world.begin_path()
+    from deepproto.proto.tracepoint.v1.tracepoint_pb2 import Metric, MetricType, LabelExpression
+    np_, nd, hits, lab = [world.realize(x) for x in (np, nd, hits, lab)]
+    P = plugins()
+    logs = [[] for _ in range(np_)]
+    w = World(plugin_list=[P["RecMetricProcessor"](lg) for lg in logs])
+    seq = [7, 11, 13, 17, 19, 23]
+    tags = ["red", "green", "blue", "cyan", "teal", "pink"]
+    defs = []
+    for i in range(nd):
+        ls = [LabelExpression(key="c", expression="tags.pop(0)")] if lab else []
+        defs.append(Metric(name="m%d" % (i + 1), type=MetricType.GAUGE, expression="seq.pop(0)", labelExpressions=ls))
+    _install(w, defs)
+    f_locals = {"seq": seq, "tags": tags}
+    for h in range(hits):
+        w.clock.t = 10 + h
+        w.event(FakeFrame("/app/f.py", "f", 7, f_locals), "line", None)
+    world.reached()
+    if len(seq) != 6 - nd * hits:
+        return "C17:once:value-expression-evaluated-%s-than-once-per-definition-and-hit" % ("more" if len(seq) < 6 - nd * hits else "less")
+    if len(tags) != 6 - (nd * hits if lab else 0):
+        return "C17:once:label-expression-evaluated-more-than-once-per-definition-and-hit"
+    first = [(e[1], e[2], e[6]) for e in logs[0]]
+    for lg in logs[1:]:
+        if [(e[1], e[2], e[6]) for e in lg] != first:
+            return "C17:once:processors-told-different-values"
+    vals = sorted(e[6] for e in logs[0])
+    if vals != [float(x) for x in (7, 11, 13, 17)[:nd * hits]]:
+        return "C17:once:values"
+    return ""
+
+
 VEXPR = [None, "v", "flag", "name", "nope", "v + 1", "1/0", "10 ** 400", "bad", "[1]"]
 
 
@@ -254,6 +295,8 @@ CONDITIONS = [
     dict(fn="dispatch", cubes=["t1 == %d and nd == %d and hits == %d" % (a, n, h) for a in range(4) for n in (1, 2) for h in (1, 2)],
          twins=["reach", "mutant:always_counter@t1 == 1 and nd == 1 and hits == 1"],
          bounds="1-2 definitions x 4 types each, 0-2 processors, metadata present/absent, 1-2 hits"),
+    dict(fn="once", cubes=["np == %d and nd == %d" % (a, b) for a in (1, 2, 3) for b in (1, 2)], twins=["reach"],
+         bounds="1-3 processors x 1-2 definitions x 1-2 hits; value (and optionally a label) expression that consumes application state"),
     dict(fn="value", cubes=["vk == %d" % k for k in range(10)],
          twins=["reach", "mutant:value_const@vk == 5"],
          bounds="10 value-expression flavours (incl. a value too large for float, an object whose __float__ raises, a list) x 4 types; numeric local in -2..2 (symbolic floats compare through IEEE-precise models that enumerate; kept small), bool local"),
